@@ -28,6 +28,8 @@ func runC10(c *Ctx) {
 	c.Rep.Rule = "machine scenarios of every pattern cut at random lengths and closed with whatever is parked, then used again after Close (class = machine, operation, outcome shape); core scenarios ending in Socket.Close; " +
 		"real sockets of 16 pattern pairs over inproc/ipc/tcp/tls/ws/wss closed at random phases of blocked Recv/Send, traffic, dialing and redialing (class = pattern, transport, close order, check)"
 	postCloseOps = true
+	runHandshaker(c)
+	runAcceptCloseRace(c)
 	defer func() { postCloseOps = false }()
 	n := 12
 	if c.Thorough() {
